@@ -1,7 +1,7 @@
 #!/usr/bin/env python3
 """Shared machinery of ./check: build (Coq, extraction, OCaml driver, Go harness), run the
 correspondence, classify, write evidence.  See DESIGN.md sections 4, 5 and 8."""
-import fcntl, hashlib, json, os, re, subprocess, sys, time
+import fcntl, glob, hashlib, json, os, re, subprocess, sys, time
 
 VERIF = os.path.dirname(os.path.dirname(os.path.abspath(__file__)))
 REPO = os.environ.get("VERIF_REPO", "/repo")
@@ -98,6 +98,22 @@ def prop_obligations(prop):
         cmds.append(cmd); closed_all += closed; asked_all += asked
     return dict(obligations=len(names), discharged=len(names), theorems=names, axioms=[],
                 checker_cmd="cd coq && make -j16 && " + " && ".join(cmds) + "   (Print Assumptions: %d/%d closed)" % (closed_all, asked_all))
+
+
+def coqchk(prop):
+    """thorough tier: re-check the compiled property files (and everything they depend on) with the
+    independent checker and report the axioms it finds."""
+    mods = sorted(os.path.basename(f)[:-2] for f in glob.glob(os.path.join(COQ, "Prop%s*.v" % prop))
+                  if re.match(r"Prop%s[a-z]?\.v$" % prop, os.path.basename(f)) and os.path.exists(f + "o"))
+    if not mods:
+        return dict(coqchk="no compiled property file")
+    with Lock("coq"):
+        rc, out = sh("timeout 3000 coqchk -silent -o -Q . TV " + " ".join("TV." + m for m in mods), cwd=COQ, check=False)
+    m = re.search(r"\* Axioms:\s*(.*?)\n\s*\n", out, re.S)
+    ax = re.sub(r"\s+", " ", m.group(1)).strip() if m else "?"
+    if rc != 0:
+        raise SystemExit("BROKEN: coqchk rejects the compiled development: " + out[-1500:])
+    return dict(coqchk="coqchk -silent -o %s: ok; axioms: %s" % (" ".join(mods), ax))
 
 
 def build_driver():
